@@ -1,11 +1,12 @@
 // Shared support: directly constructed symbolic pre-states of the DataReader sample cache
 // (`DataReaderEntity<()>`, pattern S of DESIGN.md: ONE real operation from a constructed pre-state).
 //
-// Bounded family: <= 3 stored samples over <= 2 instance handles and <= 2 writer guids; change kind,
-// source timestamp, sample state and generation counts of every sample symbolic; the `instances` table
-// (via the guarded hook `InstanceState::verif_from_parts`) and `instance_ownership` symbolic and
-// consistent with the sample list.  The *shadow* (`PreState`) is a plain-value copy of what was put
-// into the real object, so oracles can be written over integers instead of over the real vectors.
+// Bounded family: exactly n <= 3 stored samples (n is CONCRETE per harness, see `Structure`) over 2
+// instance handles and 2 writer guids; instance, writer, change kind, source timestamp, sample state and
+// generation counts of every sample symbolic; the `instances` table (via the guarded hook
+// `InstanceState::verif_from_parts`) and `instance_ownership` with concrete presence flags and symbolic
+// contents.  The *shadow* (`PreState`) is a plain-value copy of what was put into the real object, so
+// oracles can be written over integers instead of over the real vectors.
 //
 // Representation invariant of the reader cache (derived from data_reader_entity.rs, see `rep_ok`):
 //   R1  `instances` holds pairwise distinct handles (entries are only ever pushed after a lookup miss
@@ -19,12 +20,24 @@
 // sample, it only copies it) so that a post-state can be compared with the pre-state sample by sample;
 // the incoming change carries NEW_TAG in the same byte of its writer GUID.
 //
-// Cost notes (measured): the vectors of the pre-state are allocated with their final capacity (the
-// reallocation path of `Vec` is library code, not code under test) and all stored samples share ONE
-// payload allocation, so that `Vec::remove`/`insert` at a symbolic index does not have to dereference
-// a symbolic `Arc` pointer.  `PreState::n`, the number of stored samples, is a *concrete* value per harness
-// (harness families enumerate n = 0..=3); the derived `<InstanceHandle as PartialEq>::eq` is replaced by
-// a proven-equivalent loop-free stub (`handle_eq_stub`) so that the unwinding bound can be 6 instead of 18.
+// Cost notes (all measured on this code base, Kani 0.68 / CBMC 6.11):
+//  * objects stored in a Vec live in a byte-array heap object; values read back from it are never
+//    constant-folded, so only *structure* (list lengths, presence of table entries, concrete QoS enum
+//    values held in the entity struct itself) prunes code; symbolic stored values cost nothing extra;
+//  * a symbolic list length makes every list loop unroll to the global bound and doubled the formula
+//    (out of memory at 12 GB for n <= 2 symbolic) -> `PreState::n` is concrete, harness families
+//    enumerate n = 0..=3;
+//  * the derived `<InstanceHandle as PartialEq>::eq` is a 16-byte memcmp loop that forces unwind >= 17 on
+//    every loop (no answer in 600 s) -> replaced by the proven-equivalent loop-free `handle_eq_stub`,
+//    unwinding bound 6;
+//  * `Vec::remove` / `Vec::insert` at a symbolic index are byte-level memmoves whose cost grows with the
+//    square of the buffer size -> the sample list is allocated with exactly n + 1 slots (the reallocation
+//    path of `Vec` is library code, not code under test); all stored samples share ONE payload allocation;
+//  * CaDiCaL (Kani's default) needs > 12 GB on the resulting 2-9 M variable formulas, MiniSat 2-5 GB ->
+//    every harness carries `#[kani::solver(minisat)]`;
+//  * oracles avoid array accesses at symbolic indices (concrete index pairs only);
+//  * a `kani::cover!` that is dead code in a harness counts as a failed witness -> covers live in the
+//    harness functions, the shared check functions return what they observed.
 use alloc::string::String;
 use alloc::sync::Arc;
 use alloc::vec::Vec;
